@@ -105,6 +105,8 @@ def family(seed):
         S("STransSkipZst", "named", [F("u16"), F("PhantomData<u64>", "skip")], transparent=True),
         # a field that is zero-sized in memory but NOT on the wire, inside a transparent struct and a plain one
         S("STransZstEnc", "named", [F("OneV"), F("u32")], transparent=True),
+        # the only SIZED field of a transparent struct is skipped, the decoded one is zero-sized in memory
+        S("STransSkipSized", "tuple", [F("u32", "skip"), F("OneV")], transparent=True),
         S("SZstEncMid", "tuple", [F("u8"), F("OneV"), F("u16", "compact")]),
         S("SBoxed", "named", [F("Box<u8>"), F("u8", "compact")], tier="t"),
         S("SCompact64Pair", "named", [F("u64", "compact"), F("u64", "encoded_as")], tier="t"),
@@ -120,6 +122,9 @@ def family(seed):
         E("EAttrDiscMix", [V("A", disc=5), V("B", index=5 + 1, disc=5 + 2), V("C"), V("D", skip=True), V("F", disc=250)]),
         E("ESkipField", [V("A", "tuple", [F("u8", "skip"), F("u16")]), V("B", "named", [F("u32", "skip", name="p")])]),
         E("ESkipAttrLast", [V("A"), V("Retired", index=7, skip=True, skip_last=True), V("B", "tuple", [F("u8")]), V("C", "tuple", [F("OneV")], index=9)]),
+        # variants with the SAME field types whose attributes differ (the larger one comes later)
+        E("EDupTypes", [V("A", "tuple", [F("u64")]), V("B", "tuple", [F("u64", "compact")]), V("C", "tuple", [F("u64")])]),
+        E("EDupTypes2", [V("A", "named", [F("u8", "compact", name="x")]), V("B", "named", [F("u8", name="x")]), V("C", "named", [F("u8", "encoded_as", name="x")])], tier="t"),
         E("EAllSkipped", [V("A", skip=True), V("B", "tuple", [F("u8")], skip=True)]),
         E("EVec", [V("A", "tuple", [F("Vec<u8>")]), V("B")], derives_mel=False),
         E("EIdx255", [V("A", index=255), V("B", index=254), V("C", disc=7)], tier="t"),
@@ -325,6 +330,9 @@ def emit(fam):
             w('#[cfg(feature = "c07")] #[kani::proof] #[kani::unwind(%d)] pub fn c07%s_derived_%s_entry() { crate::c07_entry::h_entry::<%s, %d>(2) }' % (u, "t" if wide else q, nm, t.name, n))
         if isinstance(t, S) and t.transparent:
             w('#[cfg(feature = "c05")] #[kani::proof] #[kani::unwind(%d)] pub fn c05%s_%s_boxed_dec() { h_dec::<Box<%s>, %d>() }' % (u, q, nm, t.name, l))
+            if any(f.attr == "skip" for f in t.fields):
+                w('#[cfg(feature = "c05")] #[kani::proof] #[kani::unwind(%d)] pub fn c05%s_%s_inplace_skip() { h_dec_derived_inplace::<%s, %d>() }' % (2 * u, q, nm, t.name, 2 * t.maxlen + 1))
+                w('#[cfg(feature = "c10")] #[kani::proof] #[kani::unwind(%d)] pub fn c10%s_derived_%s_inplace_skip() { h_dec_derived_inplace::<%s, %d>() }' % (2 * u, q, nm, t.name, 2 * t.maxlen + 1))
             if t.maxlen <= 5:
                 w('#[cfg(feature = "c05")] #[kani::proof] #[kani::unwind(%d)] pub fn c05%s_%s_array_dec() { h_dec::<[%s; 2], %d>() }' % (2 * u, q, nm, t.name, 2 * t.maxlen + 1))
     w("")
